@@ -1,10 +1,14 @@
 import Gofasta.Lemmas.AACalls
 import Gofasta.Lemmas.SamIndels
 /-
-C04, order and multiplicity: when is the LIST of mutation records the model builds (`getVariantsPair`: generation
-order, stable sort, drop adjacent repeats) the list the specification asks for (`specVariants`: generation order, keep
-first occurrences, stable sort)?  Exactly when, in generation order, the equal amino-acid records of one position
-are not separated by a different amino-acid record of that position.
+C04, order and multiplicity: the LIST of mutation records the model builds (`getVariantsPair`: generation order,
+stable sort, then the de-duplication loop `dedupRun`, which scans the kept records of the same position and kind
+backwards) IS the list the specification asks for (`specVariants`: generation order, keep first occurrences, stable
+sort) — `variants_list_eq`, no hypothesis on the names of the features; no record is output twice — `variants_nodup`.
+The loop of the Go code before its repair (`dedupAdj`: compare with the previously kept record only, here
+`oldVariantsPair`) gave the specified list exactly when, in generation order, the equal amino-acid records of one
+position were not separated by a different amino-acid record of that position — `old_variants_list_eq_iff`,
+`old_dedup_differs`.
 -/
 namespace Gofasta.Lemmas.VariantsOrder
 open Gofasta Base Model Spec Gofasta.Lemmas
@@ -359,6 +363,111 @@ theorem adj_sort_eq_sort_all_iff (A : List Variant) (hd : ∀ v ∈ A, ¬ isDel0
   constructor
   · intro h z; rw [← sortStable_stable hS z A]; exact h z
   · intro h z; rw [sortStable_stable hS z A]; exact h z
+
+/-! ### 4b. the repaired loop: on a sorted list, scanning the run of equal (position, kind) finds every earlier copy -/
+
+/-- not a deletion recorded at position 0 (as a Bool, for `List.filter`) -/
+def notDel0 (v : Variant) : Bool := !(decide (v.kind = .del ∧ v.pos = 0))
+
+theorem notDel0_iff (v : Variant) : notDel0 v = true ↔ ¬ isDel0 v := by
+  unfold notDel0 isDel0
+  rw [Bool.not_eq_true', decide_eq_false_iff_not]
+
+/-- `K` (newest first) are kept records of a sorted list and `v` comes after all of them: if `v` is among them, the
+backward scan finds it, because everything kept after the copy is tied with `v` -/
+theorem seenInRun_of_mem (v : Variant) : ∀ (K : List Variant), K.Pairwise (fun a b => variantLt a b = false) →
+    (∀ k ∈ K, variantLt v k = false) → v ∈ K → seenInRun v K = true := by
+  intro K
+  induction K with
+  | nil => intro _ _ h; cases h
+  | cons k t ih =>
+    intro hp hv hm
+    have hp' := List.pairwise_cons.1 hp
+    by_cases hkv : k = v
+    · subst hkv
+      simp [seenInRun]
+    · have hvt : v ∈ t := by
+        rcases List.mem_cons.1 hm with h | h
+        · exact absurd h.symm hkv
+        · exact h
+      have h1 : variantLt k v = false := hp'.1 v hvt
+      have h2 : variantLt v k = false := hv k List.mem_cons_self
+      have ht := (tied_variantLt k v).1 ((tied_iff k v).2 ⟨h1, h2⟩)
+      have iht := ih hp'.2 (fun x hx => hv x (List.mem_cons_of_mem _ hx)) hvt
+      simp [seenInRun, ht.1, ht.2, iht]
+
+theorem seenInRun_iff_mem (v : Variant) (K : List Variant) (hp : K.Pairwise (fun a b => variantLt a b = false))
+    (hv : ∀ k ∈ K, variantLt v k = false) : seenInRun v K = true ↔ v ∈ K :=
+  ⟨mem_of_seenInRun v K, seenInRun_of_mem v K hp hv⟩
+
+/-- the loop with `K` already kept, on the rest `l` of a sorted list: the kept records, then the first occurrences of
+the rest (deletions at 0 dropped) that are not among the kept ones -/
+theorem dedupRun_spec : ∀ (l K : List Variant), Sorted variantLt (K.reverse ++ l) →
+    dedupRun K l = K.reverse ++ (dd (l.filter notDel0)).filter (fun x => !K.contains x) := by
+  intro l
+  induction l with
+  | nil => intro K _; simp [dedupRun, dd]
+  | cons v t ih =>
+    intro K hs
+    have hsub : Sorted variantLt (K.reverse ++ t) :=
+      List.Pairwise.sublist (List.Sublist.append (List.Sublist.refl _) (List.sublist_cons_self v t)) hs
+    have hs' := List.pairwise_append.1 hs
+    have hK : K.Pairwise (fun a b => variantLt a b = false) := List.pairwise_reverse.1 hs'.1
+    have hvK : ∀ k ∈ K, variantLt v k = false := fun k hk => hs'.2.2 k (List.mem_reverse.2 hk) v List.mem_cons_self
+    simp only [dedupRun, List.filter_cons]
+    by_cases hd : v.kind = .del ∧ v.pos = 0
+    · have hn : notDel0 v = false := by simp [notDel0, hd]
+      simp only [hd, and_self, if_true, hn, Bool.false_eq_true, if_false]
+      exact ih K hsub
+    · have hn : notDel0 v = true := by simp [notDel0, hd]
+      simp only [hd, if_false, hn, if_true, dd, List.filter_cons]
+      by_cases hseen : seenInRun v K = true
+      · have hm : v ∈ K := mem_of_seenInRun v K hseen
+        have hc : K.contains v = true := by simpa using hm
+        simp only [hseen, if_true, hc, Bool.not_true, Bool.false_eq_true, if_false]
+        rw [ih K hsub, List.filter_filter]
+        congr 1
+        apply List.filter_congr
+        intro x _
+        by_cases hx : x = v
+        · subst hx; simp [hm]
+        · simp [hx]
+      · have hm : v ∉ K := fun h => hseen (seenInRun_of_mem v K hK hvK h)
+        have hc : K.contains v = false := by simpa using hm
+        simp only [hseen, Bool.false_eq_true, if_false, hc, Bool.not_false, if_true]
+        rw [ih (v :: K) (by simpa using hs), List.filter_filter]
+        simp only [List.reverse_cons, List.append_assoc, List.singleton_append]
+        congr 2
+        apply List.filter_congr
+        intro x _
+        by_cases hx : x = v <;> simp [hx, Bool.and_comm]
+
+/-- **the repaired loop on a sorted list keeps exactly the first occurrences** (and drops deletions at 0) -/
+theorem dedupRun_sorted_dd (l : List Variant) (hs : Sorted variantLt l) : dedupRun [] l = dd (l.filter notDel0) := by
+  rw [dedupRun_spec l [] (by simpa using hs)]
+  simp
+
+theorem dedupRun_sorted (l : List Variant) (hs : Sorted variantLt l) : dedupRun [] l = dedupAll (l.filter notDel0) := by
+  rw [dedupRun_sorted_dd l hs, dedupAll_eq_dd]
+
+theorem dedupRun_sorted_of_no_del0 (l : List Variant) (hs : Sorted variantLt l) (hd : ∀ v ∈ l, ¬ isDel0 v) :
+    dedupRun [] l = dd l := by
+  rw [dedupRun_sorted_dd l hs]
+  congr 1
+  rw [List.filter_eq_self]
+  intro v hv
+  exact (notDel0_iff v).2 (hd v hv)
+
+/-- on a sorted list the repaired loop never outputs a record twice -/
+theorem dedupRun_nodup (l : List Variant) (hs : Sorted variantLt l) : (dedupRun [] l).Nodup := by
+  rw [dedupRun_sorted_dd l hs]
+  exact nodup_dd _
+
+/-- **sort, then the repaired loop  =  keep first occurrences, then sort** — for every input without deletions at 0 -/
+theorem run_sort_eq_sort_all (A : List Variant) (hd : ∀ v ∈ A, ¬ isDel0 v) :
+    dedupRun [] (sortStable variantLt A) = sortStable variantLt (dedupAll A) := by
+  rw [dedupRun_sorted_of_no_del0 _ (sorted_sortStable variantLt_swo A) (fun v hv => hd v ((mem_sortStable _ _ _).1 hv)),
+    dedupAll_eq_dd, dd_sortStable variantLt_swo A]
 
 /-! ### 5. the indel records: scanner order against "insertions, then deletions" -/
 
@@ -978,38 +1087,108 @@ theorem flatMap_congr' {α β : Type} (f g : α → List β) : ∀ (l : List α)
     simp only [List.flatMap_cons]
     rw [h a List.mem_cons_self, ih (fun b hb => h b (List.mem_cons_of_mem _ hb))]
 
-/-- the model's list is: the specification's records in the specification's generation order, sorted, adjacent
-repeats dropped -/
-theorem model_eq (ref q : List Nat) (regions : List Region) (inter : List Nat) (hl : ref.length = q.length)
+/-- the records the model generates for one query, in the model's generation order (the list `all` of
+`getVariantsPair`) -/
+def modelAll (ref q : List Nat) (regions : List Region) (inter : List Nat) : List Variant :=
+  getIndelsPair ref q ++ getNucsPair ref q (refCols ref) inter ++ (regions.flatMap fun r => getAAsPair ref q (refCols ref) r)
+
+theorem getVariantsPair_eq (ref q : List Nat) (regions : List Region) (inter : List Nat) :
+    getVariantsPair ref q regions inter = dedupRun [] (sortStable variantLt (modelAll ref q regions inter)) := rfl
+
+/-- the mutation list as the Go code built it BEFORE the repair: same records, same sort, but only the previously
+kept record is compared -/
+def oldVariantsPair (ref q : List Nat) (regions : List Region) (inter : List Nat) : List Variant :=
+  dedupAdj none (sortStable variantLt (modelAll ref q regions inter))
+
+/-- after the stable sort the model's records are the specification's records in the specification's generation order -/
+theorem modelAll_sorted_eq (ref q : List Nat) (regions : List Region) (inter : List Nat) (hl : ref.length = q.length)
     (hr : OkRow ref) (hq : OkRow q) (hv : ∀ reg ∈ regions, ValidPositions ref q reg.positions) :
-    getVariantsPair (ref.map (enc false)) (q.map (enc false)) regions inter =
-      dedupAdj none (sortStable variantLt (specAll ref q regions inter)) := by
-  unfold getVariantsPair specAll
-  simp only []
+    sortStable variantLt (modelAll (ref.map (enc false)) (q.map (enc false)) regions inter) =
+      sortStable variantLt (specAll ref q regions inter) := by
+  unfold modelAll specAll
   rw [nucs_spec ref q hl hr hq inter]
   rw [flatMap_congr' _ (regionRecords ref q) regions (fun reg hreg => aas_spec ref q reg hl hr hq (hv reg hreg))]
   rw [List.append_assoc, indels_sort_eq, ← List.append_assoc]
 
+/-- the model's list is: the specification's records in the specification's generation order, sorted, then passed
+through the de-duplication loop -/
+theorem model_eq (ref q : List Nat) (regions : List Region) (inter : List Nat) (hl : ref.length = q.length)
+    (hr : OkRow ref) (hq : OkRow q) (hv : ∀ reg ∈ regions, ValidPositions ref q reg.positions) :
+    getVariantsPair (ref.map (enc false)) (q.map (enc false)) regions inter =
+      dedupRun [] (sortStable variantLt (specAll ref q regions inter)) := by
+  rw [getVariantsPair_eq, modelAll_sorted_eq ref q regions inter hl hr hq hv]
+
+theorem old_model_eq (ref q : List Nat) (regions : List Region) (inter : List Nat) (hl : ref.length = q.length)
+    (hr : OkRow ref) (hq : OkRow q) (hv : ∀ reg ∈ regions, ValidPositions ref q reg.positions) :
+    oldVariantsPair (ref.map (enc false)) (q.map (enc false)) regions inter =
+      dedupAdj none (sortStable variantLt (specAll ref q regions inter)) := by
+  unfold oldVariantsPair
+  rw [modelAll_sorted_eq ref q regions inter hl hr hq hv]
+
 theorem spec_eq (ref q : List Nat) (regions : List Region) (inter : List Nat) :
     specVariants ref q regions inter = sortStable variantLt (dedupAll (specAll ref q regions inter)) := rfl
 
-/-- **C04.list, exact form** — for rows of equal length over the accepted alphabet and features whose positions lie
-on the reference, the mutation list of the model IS the specified list if and only if, for every position, the
-amino-acid records of that position have their copies contiguous in generation order (feature by feature in
-annotation order, codon by codon) -/
-theorem variants_list_eq_iff (ref q : List Nat) (regions : List Region) (inter : List Nat) (hl : ref.length = q.length)
+/-- **C04.list** — for rows of equal length over the accepted alphabet and features whose positions lie on the
+reference, the mutation list of the model IS the specified list: same records, same order, every record once.
+No hypothesis on the names of the features or on the order in which equal records are generated. -/
+theorem variants_list_eq (ref q : List Nat) (regions : List Region) (inter : List Nat) (hl : ref.length = q.length)
     (hr : OkRow ref) (hq : OkRow q) (hv : ∀ reg ∈ regions, ValidPositions ref q reg.positions) :
-    getVariantsPair (ref.map (enc false)) (q.map (enc false)) regions inter = specVariants ref q regions inter ↔
-      ∀ p : Int, Clumped (aaAt (regions.flatMap (regionRecords ref q)) p) := by
-  rw [model_eq ref q regions inter hl hr hq hv, spec_eq,
-    adj_sort_eq_sort_all_iff _ (specAll_no_del0 ref q regions inter), classes_iff]
+    getVariantsPair (ref.map (enc false)) (q.map (enc false)) regions inter = specVariants ref q regions inter := by
+  rw [model_eq ref q regions inter hl hr hq hv, spec_eq]
+  exact run_sort_eq_sort_all _ (specAll_no_del0 ref q regions inter)
 
-/-- **C04.list** — the lists are equal whenever no amino-acid record is generated twice -/
+/-- **no record is ever output twice** — any rows, any regions, any intergenic list -/
+theorem variants_nodup (ref q : List Nat) (regions : List Region) (inter : List Nat) :
+    (getVariantsPair ref q regions inter).Nodup := by
+  rw [getVariantsPair_eq]
+  exact dedupRun_nodup _ (sorted_sortStable variantLt_swo _)
+
+/-- the list is sorted by position, then kind — any rows, any regions, any intergenic list -/
+theorem variants_sorted (ref q : List Nat) (regions : List Region) (inter : List Nat) :
+    Sorted variantLt (getVariantsPair ref q regions inter) := by
+  rw [getVariantsPair_eq, dedupRun_sorted_dd _ (sorted_sortStable variantLt_swo _)]
+  exact List.Pairwise.sublist ((dd_sublist _).trans List.filter_sublist) (sorted_sortStable variantLt_swo _)
+
+/-- corollary of `variants_list_eq` (the hypothesis `hn` is no longer needed; kept under its old name) -/
 theorem variants_list_eq_of_nodup (ref q : List Nat) (regions : List Region) (inter : List Nat) (hl : ref.length = q.length)
     (hr : OkRow ref) (hq : OkRow q) (hv : ∀ reg ∈ regions, ValidPositions ref q reg.positions)
+    (_hn : ((regions.flatMap (regionRecords ref q)).filter (kindIs .aa)).Nodup) :
+    getVariantsPair (ref.map (enc false)) (q.map (enc false)) regions inter = specVariants ref q regions inter :=
+  variants_list_eq ref q regions inter hl hr hq hv
+
+/-- corollary of `variants_list_eq` (the hypothesis `h1` is no longer needed; kept under its old name) -/
+theorem variants_list_eq_of_le_one (ref q : List Nat) (regions : List Region) (inter : List Nat) (hl : ref.length = q.length)
+    (hr : OkRow ref) (hq : OkRow q) (hv : ∀ reg ∈ regions, ValidPositions ref q reg.positions)
+    (_h1 : regions.length ≤ 1) :
+    getVariantsPair (ref.map (enc false)) (q.map (enc false)) regions inter = specVariants ref q regions inter :=
+  variants_list_eq ref q regions inter hl hr hq hv
+
+/-! ### 9. the list before the repair: equal to the specified list exactly when the copies were contiguous -/
+
+/-- **the old list, exact form** — the list built by comparing with the previous record only IS the specified list if
+and only if, for every position, the amino-acid records of that position have their copies contiguous in generation
+order (feature by feature in annotation order, codon by codon) -/
+theorem old_variants_list_eq_iff (ref q : List Nat) (regions : List Region) (inter : List Nat) (hl : ref.length = q.length)
+    (hr : OkRow ref) (hq : OkRow q) (hv : ∀ reg ∈ regions, ValidPositions ref q reg.positions) :
+    oldVariantsPair (ref.map (enc false)) (q.map (enc false)) regions inter = specVariants ref q regions inter ↔
+      ∀ p : Int, Clumped (aaAt (regions.flatMap (regionRecords ref q)) p) := by
+  rw [old_model_eq ref q regions inter hl hr hq hv, spec_eq,
+    adj_sort_eq_sort_all_iff _ (specAll_no_del0 ref q regions inter), classes_iff]
+
+/-- the repaired list and the old list agree exactly when the copies were contiguous -/
+theorem old_eq_new_iff (ref q : List Nat) (regions : List Region) (inter : List Nat) (hl : ref.length = q.length)
+    (hr : OkRow ref) (hq : OkRow q) (hv : ∀ reg ∈ regions, ValidPositions ref q reg.positions) :
+    oldVariantsPair (ref.map (enc false)) (q.map (enc false)) regions inter =
+        getVariantsPair (ref.map (enc false)) (q.map (enc false)) regions inter ↔
+      ∀ p : Int, Clumped (aaAt (regions.flatMap (regionRecords ref q)) p) := by
+  rw [variants_list_eq ref q regions inter hl hr hq hv, old_variants_list_eq_iff ref q regions inter hl hr hq hv]
+
+/-- the old list was the specified list whenever no amino-acid record is generated twice -/
+theorem old_variants_list_eq_of_nodup (ref q : List Nat) (regions : List Region) (inter : List Nat) (hl : ref.length = q.length)
+    (hr : OkRow ref) (hq : OkRow q) (hv : ∀ reg ∈ regions, ValidPositions ref q reg.positions)
     (hn : ((regions.flatMap (regionRecords ref q)).filter (kindIs .aa)).Nodup) :
-    getVariantsPair (ref.map (enc false)) (q.map (enc false)) regions inter = specVariants ref q regions inter := by
-  rw [variants_list_eq_iff ref q regions inter hl hr hq hv]
+    oldVariantsPair (ref.map (enc false)) (q.map (enc false)) regions inter = specVariants ref q regions inter := by
+  rw [old_variants_list_eq_iff ref q regions inter hl hr hq hv]
   intro p
   have : aaAt (regions.flatMap (regionRecords ref q)) p =
       ((regions.flatMap (regionRecords ref q)).filter (kindIs .aa)).filter (fun v => v.pos == p) := by
@@ -1021,26 +1200,12 @@ theorem variants_list_eq_of_nodup (ref q : List Nat) (regions : List Region) (in
   rw [this]
   exact clumped_filter _ _ (clumped_of_nodup _ hn)
 
-/-- **C04.list, features with different names** — the mutation list of the model is the specified list: same records,
-same order, same multiplicity -/
-theorem variants_list_eq (ref q : List Nat) (regions : List Region) (inter : List Nat) (hl : ref.length = q.length)
+/-- in particular for features with pairwise different names -/
+theorem old_variants_list_eq (ref q : List Nat) (regions : List Region) (inter : List Nat) (hl : ref.length = q.length)
     (hr : OkRow ref) (hq : OkRow q) (hv : ∀ reg ∈ regions, ValidPositions ref q reg.positions)
     (hnames : regions.Pairwise (fun a b => a.name ≠ b.name)) :
-    getVariantsPair (ref.map (enc false)) (q.map (enc false)) regions inter = specVariants ref q regions inter :=
-  variants_list_eq_of_nodup ref q regions inter hl hr hq hv (regions_aa_nodup ref q regions hnames)
-
-/-- at most one coding feature: no hypothesis on names -/
-theorem variants_list_eq_of_le_one (ref q : List Nat) (regions : List Region) (inter : List Nat) (hl : ref.length = q.length)
-    (hr : OkRow ref) (hq : OkRow q) (hv : ∀ reg ∈ regions, ValidPositions ref q reg.positions)
-    (h1 : regions.length ≤ 1) :
-    getVariantsPair (ref.map (enc false)) (q.map (enc false)) regions inter = specVariants ref q regions inter := by
-  apply variants_list_eq ref q regions inter hl hr hq hv
-  match regions, h1 with
-  | [], _ => exact List.Pairwise.nil
-  | [r], _ => exact List.pairwise_singleton _ _
-  | _ :: _ :: _, h => simp at h
-
-/-! ### 9. without any hypothesis on the features: the specified list is the model's list without its repeats -/
+    oldVariantsPair (ref.map (enc false)) (q.map (enc false)) regions inter = specVariants ref q regions inter :=
+  old_variants_list_eq_of_nodup ref q regions inter hl hr hq hv (regions_aa_nodup ref q regions hnames)
 
 theorem dd_dedupAdj_some : ∀ (S : List Variant) (p : Variant), (∀ v ∈ S, ¬ isDel0 v) →
     (dd (dedupAdj (some p) S)).filter (fun x => x != p) = (dd S).filter (fun x => x != p) := by
@@ -1090,24 +1255,45 @@ theorem dd_eq_self_iff : ∀ (l : List Variant), dd l = l ↔ l.Nodup := by
       simp only [bne_iff_ne, ne_eq]
       intro e; subst e; exact h'.1 hx
 
-/-- **C04.list, unconditional** — whatever the features are called: the specified list is the model's list with
-every later copy of a record removed; the model never changes the order and never loses a record -/
-theorem dedupAll_variants_eq (ref q : List Nat) (regions : List Region) (inter : List Nat) (hl : ref.length = q.length)
+/-- whatever the features are called, the specified list was the old list with every later copy of a record removed:
+the old code never changed the order and never lost a record, it only repeated some -/
+theorem old_dedupAll_variants_eq (ref q : List Nat) (regions : List Region) (inter : List Nat) (hl : ref.length = q.length)
     (hr : OkRow ref) (hq : OkRow q) (hv : ∀ reg ∈ regions, ValidPositions ref q reg.positions) :
-    dedupAll (getVariantsPair (ref.map (enc false)) (q.map (enc false)) regions inter) = specVariants ref q regions inter := by
-  rw [model_eq ref q regions inter hl hr hq hv, spec_eq, dedupAll_eq_dd, dedupAll_eq_dd]
+    dedupAll (oldVariantsPair (ref.map (enc false)) (q.map (enc false)) regions inter) = specVariants ref q regions inter := by
+  rw [old_model_eq ref q regions inter hl hr hq hv, spec_eq, dedupAll_eq_dd, dedupAll_eq_dd]
   rw [dd_dedupAdj_none _ (fun v h => specAll_no_del0 ref q regions inter v ((mem_sortStable _ _ _).1 h))]
   exact dd_sortStable variantLt_swo _
 
-/-- the lists differ exactly when the model writes some record twice -/
+/-- hence the repaired list is the old list with every later copy of a record removed -/
+theorem new_eq_dedupAll_old (ref q : List Nat) (regions : List Region) (inter : List Nat) (hl : ref.length = q.length)
+    (hr : OkRow ref) (hq : OkRow q) (hv : ∀ reg ∈ regions, ValidPositions ref q reg.positions) :
+    getVariantsPair (ref.map (enc false)) (q.map (enc false)) regions inter =
+      dedupAll (oldVariantsPair (ref.map (enc false)) (q.map (enc false)) regions inter) := by
+  rw [variants_list_eq ref q regions inter hl hr hq hv, old_dedupAll_variants_eq ref q regions inter hl hr hq hv]
+
+/-- the old list differed from the specified one exactly when it wrote some record twice -/
+theorem old_variants_list_eq_iff_nodup (ref q : List Nat) (regions : List Region) (inter : List Nat) (hl : ref.length = q.length)
+    (hr : OkRow ref) (hq : OkRow q) (hv : ∀ reg ∈ regions, ValidPositions ref q reg.positions) :
+    oldVariantsPair (ref.map (enc false)) (q.map (enc false)) regions inter = specVariants ref q regions inter ↔
+      (oldVariantsPair (ref.map (enc false)) (q.map (enc false)) regions inter).Nodup := by
+  rw [← old_dedupAll_variants_eq ref q regions inter hl hr hq hv, dedupAll_eq_dd, ← dd_eq_self_iff]
+  exact ⟨fun h => h.symm, fun h => h.symm⟩
+
+/-- removing later copies from the model's list changes nothing (it has none), and gives the specified list -/
+theorem dedupAll_variants_eq (ref q : List Nat) (regions : List Region) (inter : List Nat) (hl : ref.length = q.length)
+    (hr : OkRow ref) (hq : OkRow q) (hv : ∀ reg ∈ regions, ValidPositions ref q reg.positions) :
+    dedupAll (getVariantsPair (ref.map (enc false)) (q.map (enc false)) regions inter) = specVariants ref q regions inter := by
+  rw [dedupAll_eq_dd, (dd_eq_self_iff _).2 (variants_nodup _ _ _ _)]
+  exact variants_list_eq ref q regions inter hl hr hq hv
+
+/-- both sides hold now (`variants_list_eq`, `variants_nodup`); kept under its old name -/
 theorem variants_list_eq_iff_nodup (ref q : List Nat) (regions : List Region) (inter : List Nat) (hl : ref.length = q.length)
     (hr : OkRow ref) (hq : OkRow q) (hv : ∀ reg ∈ regions, ValidPositions ref q reg.positions) :
     getVariantsPair (ref.map (enc false)) (q.map (enc false)) regions inter = specVariants ref q regions inter ↔
-      (getVariantsPair (ref.map (enc false)) (q.map (enc false)) regions inter).Nodup := by
-  rw [← dedupAll_variants_eq ref q regions inter hl hr hq hv, dedupAll_eq_dd, ← dd_eq_self_iff]
-  exact ⟨fun h => h.symm, fun h => h.symm⟩
+      (getVariantsPair (ref.map (enc false)) (q.map (enc false)) regions inter).Nodup :=
+  ⟨fun _ => variants_nodup _ _ _ _, fun _ => variants_list_eq ref q regions inter hl hr hq hv⟩
 
-/-! ### 10. the hypothesis on the names cannot be dropped -/
+/-! ### 10. the input on which the list before the repair was wrong -/
 
 /-- reference ATG, query ATG; features g, h, g all made of the codon 1..3 and annotated with residue A -/
 def cxRegions : List Region :=
@@ -1124,13 +1310,13 @@ theorem cx_wellformed : OkRow [65, 84, 71] ∧ (∀ reg ∈ cxRegions, ValidPosi
     · simp only [List.mem_cons, List.not_mem_nil, or_false] at hp
       rcases hp with rfl | rfl | rfl <;> decide +kernel
 
-/-- **a difference on a well-formed input** — the call of feature g is made twice with the call of feature h in
-between: the model (like the Go program: sort, then compare with the previous record) writes g, h, g; the
-specification (every record once) asks for g, h -/
-theorem cx_differs :
+/-- **the repaired loop on the input that showed the defect** — the call of feature g is made twice with the call of
+feature h in between: the model now writes g, h, which is the specified list -/
+theorem cx_fixed :
+    getVariantsPair ([65, 84, 71].map (enc false)) ([65, 84, 71].map (enc false)) cxRegions [] =
+      specVariants [65, 84, 71] [65, 84, 71] cxRegions [] ∧
     (getVariantsPair ([65, 84, 71].map (enc false)) ([65, 84, 71].map (enc false)) cxRegions []).map (formatVariant false) =
-      ["aa:g:A1M", "aa:h:A1M", "aa:g:A1M"] ∧
-    (specVariants [65, 84, 71] [65, 84, 71] cxRegions []).map (formatVariant false) = ["aa:g:A1M", "aa:h:A1M"] := by
+      ["aa:g:A1M", "aa:h:A1M"] := by
   constructor <;> decide +kernel
 
 /-- the same with two different features of one name (two coding sequences of one gene that share their first
@@ -1138,26 +1324,47 @@ codon: 1..3 and 1..6), again with another feature in between -/
 def cxRegions2 : List Region :=
   [⟨"g", 1, [1, 2, 3], [65]⟩, ⟨"h", 1, [1, 2, 3], [65]⟩, ⟨"g", 1, [1, 2, 3, 4, 5, 6], [65, 75]⟩]
 
-theorem cx2_differs :
+theorem cx2_fixed :
+    getVariantsPair ([65, 84, 71, 65, 65, 65].map (enc false)) ([65, 84, 71, 65, 65, 65].map (enc false)) cxRegions2 [] =
+      specVariants [65, 84, 71, 65, 65, 65] [65, 84, 71, 65, 65, 65] cxRegions2 [] ∧
     (getVariantsPair ([65, 84, 71, 65, 65, 65].map (enc false)) ([65, 84, 71, 65, 65, 65].map (enc false)) cxRegions2 []).map
-      (formatVariant false) = ["aa:g:A1M", "aa:h:A1M", "aa:g:A1M"] ∧
-    (specVariants [65, 84, 71, 65, 65, 65] [65, 84, 71, 65, 65, 65] cxRegions2 []).map (formatVariant false) =
-      ["aa:g:A1M", "aa:h:A1M"] := by
+      (formatVariant false) = ["aa:g:A1M", "aa:h:A1M"] := by
   constructor <;> decide +kernel
 
-/-- two features of one name that are neighbours in the annotation (nothing generated in between) are harmless:
-here the lists agree although the names are not different -/
+/-- two features of one name that are neighbours in the annotation -/
 theorem cx_adjacent_same_name :
     getVariantsPair ([65, 84, 71].map (enc false)) ([65, 84, 71].map (enc false))
       [⟨"g", 1, [1, 2, 3], [65]⟩, ⟨"g", 1, [1, 2, 3], [65]⟩, ⟨"h", 1, [1, 2, 3], [65]⟩] [] =
     specVariants [65, 84, 71] [65, 84, 71] [⟨"g", 1, [1, 2, 3], [65]⟩, ⟨"g", 1, [1, 2, 3], [65]⟩, ⟨"h", 1, [1, 2, 3], [65]⟩] [] := by
   decide +kernel
 
-theorem cx_ne : getVariantsPair ([65, 84, 71].map (enc false)) ([65, 84, 71].map (enc false)) cxRegions [] ≠
-    specVariants [65, 84, 71] [65, 84, 71] cxRegions [] := by
-  intro h
-  have := congrArg List.length h
-  revert this
+/-- the records generated for the first input, in generation order -/
+def cxAll : List Variant := modelAll ([65, 84, 71].map (enc false)) ([65, 84, 71].map (enc false)) cxRegions []
+
+theorem cx_model : getVariantsPair ([65, 84, 71].map (enc false)) ([65, 84, 71].map (enc false)) cxRegions [] =
+    dedupRun [] (sortStable variantLt cxAll) := rfl
+
+/-- **the two loops differ**: on the sorted records of this well-formed input the old loop (compare with the previous
+record) and the repaired loop (scan the run of equal position and kind) give different lists -/
+theorem old_dedup_differs : dedupAdj none (sortStable variantLt cxAll) ≠ dedupRun [] (sortStable variantLt cxAll) := by
+  decide +kernel
+
+/-- the old loop wrote g, h, g where g, h is specified; so did it on the second input -/
+theorem old_cx_differs :
+    (oldVariantsPair ([65, 84, 71].map (enc false)) ([65, 84, 71].map (enc false)) cxRegions []).map (formatVariant false) =
+      ["aa:g:A1M", "aa:h:A1M", "aa:g:A1M"] ∧
+    (specVariants [65, 84, 71] [65, 84, 71] cxRegions []).map (formatVariant false) = ["aa:g:A1M", "aa:h:A1M"] ∧
+    (oldVariantsPair ([65, 84, 71, 65, 65, 65].map (enc false)) ([65, 84, 71, 65, 65, 65].map (enc false)) cxRegions2 []).map
+      (formatVariant false) = ["aa:g:A1M", "aa:h:A1M", "aa:g:A1M"] ∧
+    (specVariants [65, 84, 71, 65, 65, 65] [65, 84, 71, 65, 65, 65] cxRegions2 []).map (formatVariant false) =
+      ["aa:g:A1M", "aa:h:A1M"] := by
+  refine ⟨?_, ?_, ?_, ?_⟩ <;> decide +kernel
+
+/-- the repaired loop needs its input sorted: on an unsorted list a copy behind a record of another position is not
+found (in `getVariantsPair` the input is always sorted, see `variants_nodup`) -/
+theorem dedupRun_unsorted :
+    dedupRun [] [{ kind := .nuc, pos := 1 }, { kind := .nuc, pos := 2 }, { kind := .nuc, pos := 1 }] =
+      [{ kind := .nuc, pos := 1 }, { kind := .nuc, pos := 2 }, { kind := .nuc, pos := 1 }] := by
   decide +kernel
 
 end Gofasta.Lemmas.VariantsOrder
